@@ -51,6 +51,10 @@ Check C16_oracle_accepts_model : forall (scp : Q) (ps : list pos) (t : Z),
 
 Check C16_oracle_sound : forall c : case, wf_case c = true -> corr_b c = true -> prop_b c = true.
 
+Check C16_persist_invariant : forall ops g ops' s,
+  fold_left tsg_step ops g = tsg_run (some_of ops) g /\
+  sgen_run_p ops' s = sgen_run (some_of ops') s.
+
 (* the definitions the statements rest on, pinned by evaluation *)
 Definition qq (n : Z) (d : positive) : Qc := Q2Qc (n # d).
 Check eq_refl : this (pnl_return (mkPos (qq 50 1) (qq 100 1) (qq 5 1) 0)) = (1 # 10)%Q.
